@@ -296,6 +296,15 @@ def run(tier, seed):
         "interleavings are forced at the hook points log.pre / log.flushed / cache.exit / api.return; a schedule the real locks forbid is 'unrealised' (no verdict)",
         "two writers, one operation each per scheduled case; longer runs are covered by the free-running tier",
     ]
+    # unbounded in the number of frames: Apalache proves the inductive invariant of the numbering protocol (any log
+    # length, three writers, crash anywhere) and refutes it when the mutex is dropped between choosing and writing
+    ok1, w1, t1 = tlc.apalache_inductive("SeqLock", "ConstInit3")
+    ok2, w2, t2 = tlc.apalache_inductive("SeqLock", "ConstInit3Narrow")
+    if not ok1 or ok2:
+        log("\n".join(t1 + t2))
+        die_tool(f"Apalache: SeqLock inductive invariant: repaired protocol proved={ok1}, narrowed critical section refuted={not ok2}")
+    v.cov["apalache"] = {"module": "spec/apalache/SeqLock.tla", "inductive_invariant": "IndInv (implies GapFree step predicate `ok`), unbounded log length, 3 writers, crash at any step",
+                         "proved": True, "narrowed_critical_section_refuted": True, "wall_s": w1 + w2}
     # the repository's own tests as drivers: every recorded execution against the monitor half of System.tla
     from .. import suite
     suite.check(v, wd)
